@@ -84,7 +84,7 @@ impl<'a> Checksum<'a> {
                 ),
            dict(id='spec.ckparse', kind='raw', wrap="impl<'a> TryFrom<&'a str> for Checksum<'a>", text='''    type Error = ParseError;
     open spec fn try_from_rel(value: &'a str, r: Result<Checksum<'a>, ParseError>) -> bool { match r {
-        Ok(c) => ck_parse(value@) == Some(c.entries()),
+        Ok(c) => ck_parse(value@) == Some(c.entries()) && keys_lower(c.entries()),
         Err(e) => e == ParseError::InvalidQualifier && ck_parse(value@) is None,
     } }'''),
            dict(id='U-ckparse.checksum_from_text', file=F, fn='try_from', ctx=r"impl<'a> TryFrom<&'a str> for Checksum<'a>",
@@ -108,7 +108,29 @@ impl<'a> Checksum<'a> {
             assert(ps.take(it.index@ + 1).last() == hash@);
             if ck_fold(ps.take(it.index@ + 1)) is None { lemma_ck_fold_none(ps, it.index@ + 1); }
         }'''),
-                       (r'Ok\(Self \{ algorithms \}\)', 'before', '    proof { assert(ps.take(ps.len() as int) == ps); }')],
+                       (r'Ok\(Self \{ algorithms \}\)', 'before', '    proof { assert(ps.take(ps.len() as int) == ps); lemma_ck_fold_keys_lower(ps); }')],
                 ),
+           dict(id='T.ChecksumValue', kind='struct', name='ChecksumValue', file=F),
+           dict(id='U-ckacc.insert_raw', file=F, fn='insert_raw', ctx=r"impl Checksum<'_>\s*\{", wrap="impl Checksum<'_>",
+                properties=['C12'], ret=None,
+                contract='''        requires keys_lower(old(self).entries())
+        // C12: the entry is stored under the lower-cased algorithm, replacing an earlier entry spelled in any letter case
+        ensures final(self).entries() == old(self).entries().insert(lower_seq(algorithm@), value@), keys_lower(final(self).entries())''',
+                begin='        proof { lemma_lower_seq_idem(algorithm@); }',
+                rw=[('R3', r'self\.algorithms\.get_mut\(algorithm\)', 'x_hm_get_mut(&mut self.algorithms, algorithm)', '*'),
+                    ('R3', r'self\.algorithms\.insert\(copy_as_lowercase\(algorithm\), Cow::Owned\(value\)\);', 'x_hm_insert(&mut self.algorithms, copy_as_lowercase(algorithm), Cow::Owned(value));', '*')]),
+           dict(id='U-ckacc.remove', file=F, fn='remove', ctx=r"impl Checksum<'_>\s*\{", wrap="impl Checksum<'_>",
+                properties=['C12'], ret=None,
+                contract='''        requires keys_lower(old(self).entries())
+        ensures final(self).entries() == old(self).entries().remove(algorithm@), keys_lower(final(self).entries())''',
+                rw=[('R3', r'self\.algorithms\.remove\(algorithm\);', 'x_hm_remove(&mut self.algorithms, algorithm);', '*')]),
+           dict(id='U-ckacc.get_value', file=F, fn='get_value', ctx=r"impl Checksum<'_>\s*\{", wrap="impl Checksum<'_>",
+                properties=['C12'],
+                contract='''        ensures match r {
+            Some(v) => self.entries().contains_key(algorithm@) && v.0@ == self.entries()[algorithm@],
+            None => !self.entries().contains_key(algorithm@),
+        }''',
+                rw=[('R3', r'self\.algorithms\.get\(algorithm\)', 'x_hm_get(&self.algorithms, algorithm)', '*'),
+                    ('R10', r'\|v\| ChecksumValue\(v\)', "|v: &'b Cow<'_, str>| -> (cv: ChecksumValue<'b>) ensures cv.0@ == v@ { ChecksumValue(v) }", '*')]),
     ],
 )
